@@ -72,12 +72,13 @@ class Stub:
         return False
 
 
-PATH_SHAPES = ('c', 'cx', '/c', '\\c', '', 'xc', 'c/', '\\x2Fc', '\\u002fc')
+PATH_SHAPES = ('c', 'cx', '/c', '\\c', '', 'xc', 'c/', '\\x2Fc', '\\u002fc', 'a\\x2Fc',
+               'a\\U0000002fc')
 CKNAMES = ('MD5', 'SHA1', 'BLAKE2B', 'md5', 'FOO', '__size__')
 
 
 def path_field(shape, c):
-    return PATH_SHAPES[shape].replace('c', c) if shape not in (7, 8) \
+    return PATH_SHAPES[shape].replace('c', c) if shape < 7 \
         else PATH_SHAPES[shape][:-1] + c
 
 
@@ -99,7 +100,7 @@ def k_file_entry(tag: int, nfields: int, shape: int, c: str, size_ok: bool, size
     must_reject = (nfields < 2 or nfields % 2 == 1 or pf == '' or decoded_abs
                    or not size_ok or size_val < 0
                    or (shape == 3) or (c == '\\' and shape != 3)
-                   or (t == 'DIST' and ('/' in pf or shape in (7, 8))))
+                   or (t == 'DIST' and ('/' in pf or shape >= 7)))
     if shape == 3 and c in 'xuU':
         must_reject = True          # "\x" + nothing: truncated escape
     if e is None:
